@@ -17,6 +17,7 @@ from pydantic.fields import ModelField
 LEAF_POOL: List[Any] = [
     True, False, 0, 1, 7, 2 ** 40, -3, 0.5, 1e-3, 2.75, 1e12,
     "x", "Some Name", "äöü ✓", "yes", "null", "1.0", "line\nbreak", "a b.bin", "  padded  ", "smile \U0001F600", "\U00020BB7 han", "1e3",
+    "w" * 70 + "   " + "v" * 30,
     "text/plain", "image/png", "application/octet-stream", "text/plain;charset=utf-8",
     "ab12", "ab" * 32, "sha256:" + "ab" * 32, "sha512:" + "0f" * 64,
     "https://example.org/a", "http://localhost:8080/p?q=1#f", "https://orcid.org/0000-0000-0000-0001", "https://ror.org/02nv7yv05",
